@@ -424,11 +424,16 @@ impl<'a> AstConverter<'a> {
                             let next_literal_position =
                                 self.convert_token_position(next_literal)?;
 
-                            let closing_brace = Token::new_with_line(
+                            let mut closing_brace = Token::new_with_line(
                                 next_literal_position.0,
                                 next_literal_position.0.saturating_add(1),
                                 next_literal_position.2,
                             );
+
+                            for trivia_token in next_literal.leading_trivia() {
+                                closing_brace
+                                    .push_leading_trivia(self.convert_trivia(trivia_token)?);
+                            }
 
                             value_segment.set_tokens(ValueSegmentTokens {
                                 opening_brace,
